@@ -112,7 +112,7 @@ Inductive call :=
 | CNewWriter (dks : nat)                        (* NewEncryptingWriter; dks = derived key size *)
 | CHpkeEncrypt (prefix : bytes)                 (* DHKEM(X25519) and the X25519 half of X-Wing *)
 | CEciesEncrypt (prefix : bytes) (scalar dem_iv : nat)  (* ECIES: ephemeral scalar, then DEM IV *)
-| CAddKey (kt : keytype)                        (* Manager.Add / AddNewKeyFromParameters *)
+| CAddKey (kt : keytype)                        (* Manager.Add, also via AddNewKeyFrom<parameters> *)
 | CNewHandle (kt : keytype)                     (* keyset.NewHandle: a fresh manager per call *)
 | CSign (n : nat).                              (* ML-DSA rnd, SLH-DSA addrnd, RSA-PSS salt *)
 
